@@ -428,6 +428,21 @@ func (r *Reader) Resolve(obj core.Object) (core.Object, error) {
 // ResolveDeep recursively resolves all indirect references in an object
 // Implements pages.ObjectResolver interface
 func (r *Reader) ResolveDeep(obj core.Object) (core.Object, error) {
+	return r.resolveDeep(obj, make(map[int]bool))
+}
+
+// resolveDeep expands obj. onPath holds the numbers of the objects being
+// expanded: a reference back to one of them (a page's /Parent, for instance)
+// is an error instead of being followed for ever
+func (r *Reader) resolveDeep(obj core.Object, onPath map[int]bool) (core.Object, error) {
+	if ref, ok := obj.(core.IndirectRef); ok {
+		if onPath[ref.Number] {
+			return nil, fmt.Errorf("circular reference detected for object %d", ref.Number)
+		}
+		onPath[ref.Number] = true
+		defer delete(onPath, ref.Number)
+	}
+
 	// First resolve if it's a reference
 	resolved, err := r.Resolve(obj)
 	if err != nil {
@@ -439,7 +454,7 @@ func (r *Reader) ResolveDeep(obj core.Object) (core.Object, error) {
 	case core.Array:
 		result := make(core.Array, len(v))
 		for i, elem := range v {
-			resolvedElem, err := r.ResolveDeep(elem)
+			resolvedElem, err := r.resolveDeep(elem, onPath)
 			if err != nil {
 				return nil, err
 			}
@@ -450,7 +465,7 @@ func (r *Reader) ResolveDeep(obj core.Object) (core.Object, error) {
 	case core.Dict:
 		result := make(core.Dict)
 		for key, val := range v {
-			resolvedVal, err := r.ResolveDeep(val)
+			resolvedVal, err := r.resolveDeep(val, onPath)
 			if err != nil {
 				return nil, err
 			}
